@@ -3025,26 +3025,33 @@ def c16_str_cut(env, ob):
 # ---------------------------------------------------------------------------------------------------------------------
 @obligation(id="C08.recovery_phases_in_order", also="C02,C01", funcs="Database::run_recovery::{closure#0},WalRecuperator::run_recovery",
             bounds="every path of the recovery worker closure and of WalRecuperator::run_recovery; callees uninterpreted "
-                   "(each phase may fail)", native="c08_recovery_can_be_repeated")
+                   "(each phase may fail); the checkpoint itself is C01.checkpoint_order", native="c08_recovery_can_be_repeated")
 def c08_phases(env, ob):
-    """open() = analysis, then undo of the losers, then redo of the winners, then - only if all of that succeeded - the log
-    is emptied and the recovery transaction commits.  A failed (or interrupted: the same early return) recovery must leave
-    the log in place, otherwise the next open has nothing to recover from."""
+    """open() = analysis, then undo of the losers, then redo of the winners, then - only if all of that succeeded - the
+    recovery transaction commits and a CHECKPOINT (`<Pager as Write>::flush`: dirty pages, header, then the log) empties
+    the log.  A failed (or interrupted: the same early return) recovery must leave the log in place, otherwise the next
+    open has nothing to recover from; and a bare `truncate_wal` would empty the log while the recovered pages only live in
+    the cache: a second crash before the next checkpoint then loses every commit the first recovery had replayed (found
+    on the pinned tree, see DESIGN.md 9.3).  The order inside the checkpoint is C01.checkpoint_order."""
     ctx, f, args, res = explore(env, "src/lib.rs", "run_recovery::{closure#0}", loop_bound=1)
 
     def bad(path, rv):
         if path.panics or rv is None or not isinstance(rv, Agg):
             return None
         an, rec = idx(path, r"Pager::run_analysis$"), idx(path, r"WalRecuperator::run_recovery$")
-        tr, cm = idx(path, r"Pager::truncate_wal$"), idx(path, r"TransactionContext::commit_transaction$")
+        bare, cm = idx(path, r"Pager::truncate_wal$"), idx(path, r"TransactionContext::commit_transaction$")
+        ck = idx(path, r"<(?:io::pager::)?Pager as (?:std::io::)?Write>::flush$")
+        if bare and (not ck or bare[0] < ck[0]):
+            return ("log_emptied_without_writing_the_recovered_pages_first", None)
+        tr = ck
         if tr:
             if not an or not rec or an[0] > rec[0] or rec[0] > tr[0]:
                 return ("log_emptied_before_analysis_and_recovery_ran", None)
             r = path.events[rec[0]]["ret"]
             if isinstance(r, Agg):
                 return ("log_emptied_although_recovery_failed", f"(not (= {r.get_disc().term} {bvconst(0, 64)}))")
-        if cm and (not tr or tr[0] > cm[0]):
-            return ("recovery_transaction_committed_before_the_log_was_emptied", ret_is_ok(rv))
+            if not cm or cm[0] > tr[0]:
+                return ("checkpoint_taken_before_the_recovery_transaction_committed", None)
         isok = ret_is_ok(rv)
         if not (an and rec and tr and cm):
             return ("recovery_reports_success_without_running_every_phase", isok)
